@@ -844,9 +844,15 @@ def judge_c08(ops, impl):
                                         ' (late-header: the handler changes a header after its first body write)' if late else '')))
                     hid = int(f['base'][5:])
                     acts = scripts.get(hid, '%-')
-                    if acts != '%-' and 'w:' not in acts and 'content-length' not in acts.lower():
-                        total = sum(int(a[2:]) for a in acts.split(';') if a.startswith('b:'))
-                        if any(a.startswith('b:') for a in acts.split(';')) and (cl is None or cl[0] != str(total)):
+                    acts_l = acts.split(';') if acts != '%-' else []
+                    final_w = any(a.startswith('w:') and not (100 <= int(a[2:]) <= 199 and int(a[2:]) != 101) for a in acts_l)
+                    last_b = max((k for k, a in enumerate(acts_l) if a.startswith('b:')), default=None)
+                    # Content-Length of the HEAD answer = bytes the handler wrote: when the handler sends no final status itself
+                    # (informational ones do not count) and does not touch Content-Length after its last write (what it did to
+                    # that header BEFORE a write is overwritten by the next write)
+                    if acts_l and not final_w and last_b is not None and not any('content-length' in a.lower() for a in acts_l[last_b + 1:]):
+                        total = sum(int(a[2:]) for a in acts_l if a.startswith('b:'))
+                        if cl is None or cl[0] != str(total):
                             bad.append((i, 'HEAD Content-Length %r, handler wrote %d bytes' % (cl, total)))
         if method == 'OPTIONS' and t and f['base'] != 'options':
             bad.append((i, 'OPTIONS on live pattern %r answered by %s' % (pattern, f['base'])))
